@@ -552,8 +552,8 @@ fn gen_msg(rng: &mut Rng, nkeys: u64) -> Msg {
         0..=1 => Msg::Clear,
         2..=3 => Msg::Take(rng.below(nkeys + 2)),
         4..=5 => Msg::Drop(rng.below(nkeys + 2)),
-        6..=9 => Msg::Remove(rng.below(nkeys) as i32 - 1),
-        _ => Msg::Update(rng.below(nkeys) as i32 - 1, rng.below(50) as i32),
+        6..=9 => Msg::Remove(key_at(rng.below(nkeys))),
+        _ => Msg::Update(key_at(rng.below(nkeys)), rng.below(50) as i32),
     }
 }
 
@@ -565,8 +565,8 @@ fn gen_legal(rng: &mut Rng, nkeys: u64, len: usize, locals: bool) -> Vec<Note> {
         if locals && rng.below(8) == 0 {
             let m = match rng.below(5) {
                 0 => Msg::Clear,
-                1 => Msg::Remove(rng.below(nkeys) as i32 - 1),
-                _ => Msg::Update(rng.below(nkeys) as i32 - 1, 100 + rng.below(50) as i32),
+                1 => Msg::Remove(key_at(rng.below(nkeys))),
+                _ => Msg::Update(key_at(rng.below(nkeys)), 100 + rng.below(50) as i32),
             };
             out.push(Note::Local(m));
             continue;
@@ -649,6 +649,11 @@ fn gen_vlegal(rng: &mut Rng, len: usize) -> Vec<VNote> {
         }
     }
     out
+}
+
+/// The keys of the map downlinks: their numeric order is not the order of their texts ("10" < "2" < "9").
+fn key_at(i: u64) -> i32 {
+    [-1, 10, 2, 33, 9, 0, 100, 25][(i % 8) as usize]
 }
 
 fn main() {
@@ -734,14 +739,14 @@ fn main() {
             let k = rng.range(2, 6);
             let mut ns = vec![Note::Linked];
             for key in 0..k {
-                ns.push(Note::Event(Msg::Update(key as i32 - 1, rng.below(50) as i32)));
+                ns.push(Note::Event(Msg::Update(key_at(key), rng.below(50) as i32)));
             }
             for _ in 0..rng.range(1, 3) {
                 ns.push(Note::Event(match rng.below(6) {
                     0 => Msg::Clear,
                     1..=2 => Msg::Take(rng.below(k + 2)),
                     3..=4 => Msg::Drop(rng.below(k + 2)),
-                    _ => Msg::Remove(rng.below(k) as i32 - 1),
+                    _ => Msg::Remove(key_at(rng.below(k))),
                 }));
             }
             ns.push(Note::Synced);
